@@ -11,6 +11,14 @@ CHECKS = {
    text="TLC checks the containment lemma (lexically valid => under the root, for every root shape), the frame property and archive-name containment for every raw path over a 7-symbol component alphabet up to the bound, and emits the expected verdict (reject / act at Root∘Clean(raw)) per path and operation; every emitted case is replayed on 10 real bucket kinds (disk, memory, prefix-mapped, chained, filtered) plus untar/unzip and bufcas.NewFileNode inside a universe with sentinel objects outside every root, and the whole universe is compared before/after.",
    note="Bounded: paths up to 4 (quick) / 6 (thorough) components; symlink-following buckets and the Windows variant are out of scope; the expected verdict is the spec's, the observed effect is the real code's.",
    ref="4/C13"),
+ "C14": dict(engine="storage", technique="TLC state graph of Storage.tla (views as combinator trees, Sem) with every state and every transition replayed on real buckets",
+   text="TLC explores every reachable content of two base buckets under put/delete/delete-all/copy (direct and through mapped views), checks the combinator laws (map/unmap inverse, chained = nested, path-wise walk, union reports / overlay hides, strip is identity, equivalent spellings clean to the same path) and emits, per state, the expected answer of every get/stat/walk on 19 views and, per transition, the expected result and post-state; the harness materialises every state on memory and disk buckets, builds the views from the real combinators and compares every answer in every spelling, plus Copy / tar / zip round trips and AllPaths.",
+   note="Bounded path universe (5 paths chosen to separate path-wise from string-wise prefixes), 2-3 contents incl. empty and 70 kB; each transition starts from a materialised pre-state.",
+   ref="4/C14"),
+ "C15": dict(engine="storage", technique="TLC-enumerated fault plans of StorageFaults.tla replayed with a fault-injecting bucket; disk atomic writer observed at hooks, with real rename/EFBIG failures and SIGKILL",
+   text="TLC explores every interleaving of per-object Put/Write/Close jobs with up to 2 injected step failures (and a kill for disk atomic puts), checks ErrorTransparency, FaultReported, Count, AtomicVisible, FailedAtomicLeavesNothing and termination, and emits each terminal (fault plan -> outcome); every plan is replayed on Copy, CopyPath, CopyReader, CopyReadObject, PutPath, Untar, Unzip, PutFileSetToBucket and WriteResponse through a fault-injecting WriteBucket over memory and disk; the real storageos atomic writer is observed at every primitive step through the verif hooks, with real rename failures, real write failures under RLIMIT_FSIZE and real SIGKILLs at every kill point in child processes (directly, through a prefix-mapped view and through LimitWriteBucket).",
+   note="Faults above the bucket are injected by a wrapper; only what the property states is an alarm (success with missing/truncated output, unreported fault, over-count, torn or leftover atomic object); other model/code differences are listed as divergences in the evidence.",
+   ref="4/C15"),
 }
 
 NOT_APPLICABLE = {}
